@@ -5,7 +5,9 @@
  *      independently below: 11xxxxxx multipliers, largest first, then the remainder or a zero length), and reading them
  *      back gives the contents; bit offsets 0 and 3;
  *  (2) decoding hand-made valid fragment orders the encoder never produces (16K then 64K, 16K x 3 then 32K ...): same
- *      contents, no memory error (ASan). */
+ *      contents, no memory error (ASan);
+ *  (3) C14/C07: the output callback fails at its j-th call, or the k-th allocation of the reader fails: the call fails and
+ *      nothing is leaked (LeakSanitizer at exit). */
 #include <stdio.h>
 #include <stdlib.h>
 #include <string.h>
@@ -14,6 +16,20 @@
 #include <per_opentype.h>
 #include <per_support.h>
 #include <per_encoder.h>
+/* the unit itself is compiled into this file with its allocator macros redirected, so that the k-th allocation can be made
+ * to fail (mechanical macro redirection of MALLOC/REALLOC/CALLOC only) */
+static long vf_alloc_count, vf_alloc_fail_at = -1;
+static int vf_alloc_fails(void) { return vf_alloc_fail_at >= 0 && vf_alloc_count++ == vf_alloc_fail_at; }
+static void *vf_malloc(size_t n) { return vf_alloc_fails() ? 0 : malloc(n); }
+static void *vf_calloc(size_t a, size_t b) { return vf_alloc_fails() ? 0 : calloc(a, b); }
+static void *vf_realloc(void *p, size_t n) { return vf_alloc_fails() ? 0 : realloc(p, n); }
+#undef MALLOC
+#undef CALLOC
+#undef REALLOC
+#define MALLOC(size) vf_malloc(size)
+#define CALLOC(nmemb, size) vf_calloc(nmemb, size)
+#define REALLOC(oldptr, size) vf_realloc(oldptr, size)
+#include "per_opentype.c"
 
 static unsigned long long evaluated, failed;
 struct blob { size_t n; unsigned char *p; };
@@ -33,6 +49,8 @@ static asn_dec_rval_t blob_dec(const asn_codec_ctx_t *c, const asn_TYPE_descript
 static asn_TYPE_operation_t op; static asn_TYPE_descriptor_t td;
 static unsigned char out[500000]; static size_t out_n;
 static int collect(const void *p, size_t n, void *key) { (void)key; if(out_n + n > sizeof(out)) return -1; memcpy(out + out_n, p, n); out_n += n; return 0; }
+static long cb_calls, cb_fail_at = -1; static int cb_failed_once;
+static int collect_fail(const void *p, size_t n, void *key) { if(cb_fail_at >= 0 && cb_calls++ == cb_fail_at) { cb_failed_once = 1; return -1; } return collect(p, n, key); }
 static void fail(const char *what, size_t n, size_t off) { if(failed++ < 10) printf("VF-GRID: FAIL size=%zu bit-offset=%zu %s\n", n, off, what); }
 static void put_bits(unsigned char *s, size_t *pos, unsigned v, int n) { for(int i = n - 1; i >= 0; i--) { if((v >> i) & 1) s[*pos >> 3] |= (unsigned char)(0x80 >> (*pos & 7)); else s[*pos >> 3] &= (unsigned char)~(0x80 >> (*pos & 7)); (*pos)++; } }
 static unsigned get_bits(const unsigned char *s, size_t *pos, int n) { unsigned v = 0; for(int i = 0; i < n; i++) { v = (v << 1) | ((s[*pos >> 3] >> (7 - (*pos & 7))) & 1); (*pos)++; } return v; }
@@ -91,6 +109,31 @@ int main(void) {
 	{ unsigned a[] = {1, 1, 1, 2}; decode_order(a, 4, 100); }
 	{ unsigned a[] = {2, 1, 4, 1}; decode_order(a, 4, 0); }
 	{ unsigned a[] = {4, 4, 4, 4}; decode_order(a, 4, 127); }
-	printf("VF-GRID: evaluated %llu failed %llu\n", evaluated, failed);
+	/* (3) failures */
+	{ static const size_t sizes[] = { 1, 200, 16384, 16385, 40000 };
+	  for(size_t si = 0; si < sizeof(sizes) / sizeof(sizes[0]); si++) {
+		for(long j = 0; j < 12; j++) {          /* j-th output call fails */
+			struct blob b = { sizes[si], content };
+			asn_per_outp_t po; memset(&po, 0, sizeof(po)); po.buffer = po.tmpspace; po.nbits = 8 * sizeof(po.tmpspace); po.output = collect_fail;
+			out_n = 0; cb_calls = 0; cb_fail_at = j; evaluated++;
+			int r = uper_open_type_put(&td, 0, &b, &po);
+			if(r == 0) r = per_put_aligned_flush(&po);
+			if(cb_failed_once && r == 0) fail("an output failure does not make the writer fail", sizes[si], (size_t)j);
+			cb_fail_at = -1; cb_failed_once = 0;
+		}
+		for(long k = 0; k < 8; k++) {           /* k-th allocation of the reader fails */
+			struct blob b = { sizes[si], content }, r = { 0, back }; void *rp = &r;
+			asn_per_outp_t po; memset(&po, 0, sizeof(po)); po.buffer = po.tmpspace; po.nbits = 8 * sizeof(po.tmpspace); po.output = collect;
+			out_n = 0; evaluated++;
+			if(uper_open_type_put(&td, 0, &b, &po) != 0 || per_put_aligned_flush(&po) != 0) { fail("uper_open_type_put failed", sizes[si], 0); continue; }
+			asn_per_data_t pd; memset(&pd, 0, sizeof(pd)); pd.buffer = out; pd.nbits = 8 * out_n;
+			vf_alloc_count = 0; vf_alloc_fail_at = k;
+			asn_dec_rval_t rv = uper_open_type_get(0, &td, 0, &rp, &pd);
+			int hit = vf_alloc_count > k;
+			vf_alloc_fail_at = -1;
+			if(hit && rv.code == RC_OK) fail("a failed allocation does not make the reader fail", sizes[si], (size_t)k);
+		}
+	  } }
+	printf("VF-GRID: evaluated %llu failed %llu\n", evaluated, failed); fflush(stdout);
 	return failed ? 1 : 0;
 }
